@@ -9,6 +9,8 @@
   (tools/props/c13.py).
 -/
 import SuplaVerif.Model.CfgStore
+import SuplaVerif.Model.Migrate
+import SuplaVerif.Gen.MigrateTable
 import SuplaVerif.Gen.Consts
 
 namespace SuplaVerif.C13
@@ -97,5 +99,105 @@ theorem c13_ram_equals_flash_after_save (L : CfgLayout) (sector ram new : Bytes)
   have := c13_save_success_stores_record L sector new e w hlen hok
   simp only [formCommit, if_true]
   exact this.2.2.symm
+
+
+/-! ### migration 5 -> 6 -> 7 (Model/Migrate, table regenerated from supla_esp_cfg_init) -/
+
+theorem applyCopies_untouched (A B : Rec) (cs : List FieldCopy) (f : String) (h : cs.filter (fun c => c.dst == f) = []) :
+    ∀ r : Rec, applyCopies A B cs r f = r f := by
+  induction cs with
+  | nil => intro r; rfl
+  | cons c cs ih =>
+    intro r
+    have hc : (c.dst == f) = false := by
+      cases hx : (c.dst == f)
+      · rfl
+      · simp [List.filter, hx] at h
+    have hrest : cs.filter (fun c => c.dst == f) = [] := by simpa [List.filter, hc] using h
+    unfold applyCopies
+    rw [ih hrest]
+    have : f ≠ c.dst := fun e => by rw [e] at hc; simp at hc
+    simp [this]
+
+/-- a destination written by exactly one copy holds the copied part of the source field -/
+theorem applyCopies_sole (A B : Rec) (cs : List FieldCopy) (f : String) (c : FieldCopy) (h : soleCopy cs f = some c) :
+    ∀ r : Rec, applyCopies A B cs r f = ((if c.src = 0 then A else B) c.fld).take c.len ++ (r f).drop c.len := by
+  induction cs with
+  | nil => simp [soleCopy] at h
+  | cons d ds ih =>
+    intro r
+    unfold soleCopy at h
+    cases hd : (d.dst == f)
+    · have e : (d :: ds).filter (fun c => c.dst == f) = ds.filter (fun c => c.dst == f) := by simp [List.filter, hd]
+      rw [e] at h
+      unfold applyCopies
+      rw [ih (by unfold soleCopy; exact h)]
+      have : f ≠ d.dst := fun e => by rw [e] at hd; simp at hd
+      simp [this]
+    · have e : (d :: ds).filter (fun c => c.dst == f) = d :: ds.filter (fun c => c.dst == f) := by simp [List.filter, hd]
+      rw [e] at h
+      cases hr : ds.filter (fun c => c.dst == f) with
+      | nil =>
+        rw [hr] at h
+        simp only [Option.some.injEq] at h
+        subst h
+        unfold applyCopies
+        rw [applyCopies_untouched A B ds f hr]
+        have : f = d.dst := ((by simpa using hd : d.dst = f)).symm
+        simp [this]
+      | cons x xs => rw [hr] at h; cases h
+
+/-- a field copied whole arrives unchanged (the new record starts zeroed / empty) -/
+theorem whole_copy (A B : Rec) (cs : List FieldCopy) (dst : String) (src : Nat) (fld : String) (n : Nat)
+    (h : wholeFrom cs dst src fld n = true) (hl : ((if src = 0 then A else B) fld).length = n) :
+    applyCopies A B cs (fun _ => []) dst = (if src = 0 then A else B) fld := by
+  unfold wholeFrom at h
+  cases hs : soleCopy cs dst with
+  | none => rw [hs] at h; cases h
+  | some c =>
+    rw [hs] at h
+    simp only [Bool.and_eq_true, beq_iff_eq] at h
+    obtain ⟨⟨⟨⟨h1, h2⟩, h3⟩, _⟩, _⟩ := h
+    rw [applyCopies_sole A B cs dst c hs]
+    simp only [List.drop_nil, List.append_nil]
+    rw [h1, h2, h3, ← hl]
+    exact List.take_length
+
+/-- **C13.M1 (what the 5 -> 6 migration of /repo keeps)** with the copy lists regenerated from supla_esp_cfg_init: in both
+    branches GUID, server, Wi-Fi name and password come whole from the sector read as layout 5B (the leading fields of both
+    old layouts coincide); AuthKey, e-mail and the first two values of each timing array come whole from the layout the
+    branch stands for (5A: FullOpeningTime / FullClosingTime are what later layouts call Time1 / Time2) -/
+theorem c13_migration_table :
+    (∀ useA : Bool,
+      let cs := Gen.migCommon ++ (if useA then Gen.migA else Gen.migB)
+      wholeFrom cs "GUID" 1 "GUID" (copiedLen cs "GUID") = true ∧
+      wholeFrom cs "Server" 1 "Server" (copiedLen cs "Server") = true ∧
+      wholeFrom cs "WIFI_SSID" 1 "WIFI_SSID" (copiedLen cs "WIFI_SSID") = true ∧
+      wholeFrom cs "WIFI_PWD" 1 "WIFI_PWD" (copiedLen cs "WIFI_PWD") = true ∧
+      wholeFrom cs "AuthKey" (if useA then 0 else 1) "AuthKey" (copiedLen cs "AuthKey") = true ∧
+      wholeFrom cs "Email" (if useA then 0 else 1) "Email" (copiedLen cs "Email") = true ∧
+      wholeFrom cs "Time1" (if useA then 0 else 1) (if useA then "FullOpeningTime" else "Time1") (copiedLen cs "Time1") = true ∧
+      wholeFrom cs "Time2" (if useA then 0 else 1) (if useA then "FullClosingTime" else "Time2") (copiedLen cs "Time2") = true) ∧
+    Gen.mig67Kept = ["Time1[0]", "Time1[1]", "Time2[0]", "Time2[1]"] ∧
+    (∀ z ∈ Gen.mig67Zeroed, z = "Time1" ∨ z = "Time2") := by decide
+
+/-- **C13.M2 (identity survives the migration)** for every old sector content: the migrated record carries the GUID of the
+    sector and the AuthKey of the layout chosen -/
+theorem c13_migration_keeps_identity (A B : Rec) (useA : Bool)
+    (hg : (B "GUID").length = copiedLen (Gen.migCommon ++ (if useA then Gen.migA else Gen.migB)) "GUID")
+    (ha : ((if useA then A else B) "AuthKey").length = copiedLen (Gen.migCommon ++ (if useA then Gen.migA else Gen.migB)) "AuthKey") :
+    migrate56 Gen.migCommon Gen.migA Gen.migB useA A B "GUID" = B "GUID" ∧
+    migrate56 Gen.migCommon Gen.migA Gen.migB useA A B "AuthKey" = (if useA then A else B) "AuthKey" := by
+  have t := c13_migration_table.1 useA
+  simp only at t
+  unfold migrate56
+  refine ⟨?_, ?_⟩
+  · have := whole_copy A B _ "GUID" 1 "GUID" _ t.1 (by simpa using hg)
+    simpa using this
+  · cases useA
+    · have := whole_copy A B _ "AuthKey" 1 "AuthKey" _ t.2.2.2.2.1 (by simpa using ha)
+      simpa using this
+    · have := whole_copy A B _ "AuthKey" 0 "AuthKey" _ t.2.2.2.2.1 (by simpa using ha)
+      simpa using this
 
 end SuplaVerif.C13
